@@ -28,7 +28,7 @@ def answer(req):
     fobj = L.build_format(req["f"], False)
     raw, _ = L.make_raw(list(req["toks"]), req["form"])
     try:
-        parsed = DefaultArgsParser().parse(raw, fobj, req["lenient"])
+        parsed = DefaultArgsParser().parse(raw, fobj, req["lenient"])   # (the whole answer runs under the child's budget)
     except Exception as e:  # noqa
         return {"err": L.ERR.get(type(e).__name__, "EXC:" + type(e).__name__), "result": dict(L.NORES), "msg": digest(str(e))}
     res, _x = L.project_args(req["f"], parsed)
@@ -46,7 +46,12 @@ def main():
         if pid == 0:
             os.close(r)
             try:
-                out = json.dumps(answer(req))
+                from harness.engine import budget
+
+                try:
+                    out = json.dumps(budget.call(answer, req, seconds=8))
+                except budget.Budget:
+                    out = json.dumps({"err": "EXC:DoesNotTerminate", "result": {"aset": [], "aval": [], "oset": [], "oval": []}, "msg": ""})
             except BaseException as e:  # noqa
                 out = json.dumps({"err": "EXC:server:" + type(e).__name__, "result": {"aset": [], "aval": [], "oset": [], "oval": []}, "msg": ""})
             os.write(w, out.encode())
